@@ -425,6 +425,21 @@ func (db *DB) UnsetRemoteHaltLock(ctx context.Context, lockID int64) (retErr err
 	return nil
 }
 
+// UnsetRemoteHaltLockNoLock is UnsetRemoteHaltLock for a caller that already
+// holds the database's write lock (the replication stream). Calling
+// UnsetRemoteHaltLock there would wait for that same lock forever.
+func (db *DB) UnsetRemoteHaltLockNoLock(ctx context.Context, lockID int64) error {
+	haltLock := db.remoteHaltLock.Load().(*HaltLock)
+	if haltLock == nil || haltLock.ID != lockID {
+		return nil
+	}
+	if err := db.recover(ctx); err != nil {
+		return fmt.Errorf("recovery: %w", err)
+	}
+	db.remoteHaltLock.CompareAndSwap(haltLock, (*HaltLock)(nil))
+	return nil
+}
+
 // WaitPosExact returns once db has reached the target position.
 // Returns an error if ctx is done, TXID is exceeded, or on checksum mismatch.
 func (db *DB) WaitPosExact(ctx context.Context, target ltx.Pos) error {
